@@ -18,10 +18,19 @@ use secp256k1_zkp::{All, AllPreallocated};
 #[path = "support/c05_ffi_models.rs"]
 mod fm;
 
+/// `false` on the real code; every harness stubs it by `models_active_yes`. Under `cargo kani playback` stubs are not
+/// applied, so this tells the harness whether the libsecp models (and their recorders) are in force.
+fn models_active() -> bool { false }
+fn models_active_yes() -> bool { true }
+
 macro_rules! fake_secp {
     ($name:ident) => {
-        // Secp256k1<C> = { ctx: NonNull<Context>, PhantomData<C> }; only `ctx()` is read, and handed to the stubbed FFI
-        // entry points, which ignore it. No libsecp context is created.
+        // No libsecp context is created: Secp256k1<C> = { ctx: NonNull<Context>, PhantomData<C> }, only `ctx()` is read, and
+        // handed to the stubbed FFI entry points, which ignore it. (Creating a real one -- `Secp256k1::new()` -- reaches
+        // `rand::thread_rng` and makes kani-compiler 0.68 panic in intrinsics.rs, so it is not even compiled in.)
+        // Consequently these harnesses cannot be replayed on real code: without the models they stop here.
+        kani::cover!(models_active(), "libsecp models / recorders active");
+        if !models_active() { return; }
         let md = unsafe { Secp256k1::from_raw_all(core::ptr::NonNull::<zffi::Context>::dangling()) };
         let $name: &Secp256k1<All> = unsafe { &*((&*md) as *const Secp256k1<AllPreallocated<'_>> as *const Secp256k1<All>) };
     };
@@ -93,6 +102,7 @@ fn unspendable(script: &[u8]) -> bool {
 macro_rules! txout_commit_harness {
     ($name:ident, $slen:expr) => {
         #[kani::proof]
+        #[kani::stub(models_active, models_active_yes)]
         #[kani::stub(zffi::secp256k1_generator_generate_blinded, fm::generator_generate_blinded)]
         #[kani::stub(zffi::secp256k1_generator_parse, fm::generator_parse)]
         #[kani::stub(zffi::secp256k1_pedersen_commitment_parse, fm::pedersen_commitment_parse)]
@@ -109,7 +119,7 @@ macro_rules! txout_commit_harness {
             let txout = TxOut { asset, value, nonce: Nonce::Null, script_pubkey: Script::from(sbytes.to_vec()), witness: TxOutWitness::default() };
 
             match txout.get_asset_gen(secp) {
-                Ok(g) => { assert!(akind != 0); assert!(raw_gen(&g) == gen); }
+                Ok(g) => { assert!(akind != 0); if models_active() { assert!(raw_gen(&g) == gen); } }
                 Err(e) => { assert!(akind == 0); assert!(e == TxOutError::UnExpectedNullAsset); }
             }
             match txout.get_value_commit(secp) {
@@ -117,11 +127,11 @@ macro_rules! txout_commit_harness {
                     assert!(vkind != 0);
                     if vkind == 1 {
                         assert!(amount != 0 && akind != 0);
-                        assert!(raw_commit(&c) == fm::commit_unblinded_raw(amount, &gen), "explicit value => unblinded commitment of that value under that asset's generator");
+                        if models_active() { assert!(raw_commit(&c) == fm::commit_unblinded_raw(amount, &gen), "explicit value => unblinded commitment of that value under that asset's generator"); }
                         kani::cover!(akind == 2);
                         kani::cover!(akind == 1 && amount == u64::MAX);
                     } else {
-                        assert!(raw_commit(&c) == parsed);
+                        if models_active() { assert!(raw_commit(&c) == parsed); }
                         kani::cover!(akind == 0); // a confidential value does not need the asset
                     }
                 }
@@ -204,6 +214,7 @@ macro_rules! amt_stubs {
     ($(#[$m:meta])* fn $name:ident() $body:block) => {
         $(#[$m])*
         #[kani::proof]
+        #[kani::stub(models_active, models_active_yes)]
         #[kani::stub(zffi::secp256k1_generator_generate_blinded, fm::generator_generate_blinded)]
         #[kani::stub(zffi::secp256k1_generator_parse, fm::generator_parse)]
         #[kani::stub(zffi::secp256k1_pedersen_commitment_parse, fm::pedersen_commitment_parse)]
@@ -217,15 +228,14 @@ macro_rules! amt_stubs {
     };
 }
 
+macro_rules! verify_amt_harness {
+    ($name:ident, $s_akind:expr, $s_vkind:expr) => {
 amt_stubs! {
-//@ harness: verify_amt_1in_2out class=B tier=quick bound="1 input without issuance (spent output explicit or confidential), output 0 explicit-or-confidential asset and value with optional proofs and a 2-byte script, output 1 an explicit fee; primitives assumed (A-secp)" props=C05 timeout=900
-//@ clause: verify_tx_amt_proofs returns Ok iff: a confidential value has a range proof verified (verdict Ok) with that output's commitment, script bytes and asset generator; a confidential asset has a surjection proof verified (true) for that output's generator over [spent generator]; the balance primitive was called once with [spent commitment] vs [output commitments in order] and returned true. Each Err variant names a true reason.
-fn verify_amt_1in_2out() {
+fn $name() {
     fake_secp!(secp);
     // spent output
-    let s_akind: u8 = kani::any();
-    let s_vkind: u8 = kani::any();
-    kani::assume((s_akind == 1 || s_akind == 2) && (s_vkind == 1 || s_vkind == 2));
+    let s_akind: u8 = $s_akind;
+    let s_vkind: u8 = $s_vkind;
     let (s_asset, s_gen) = mk_asset(s_akind);
     let (s_value, s_amount, s_parsed) = mk_value(s_vkind);
     if s_vkind == 1 { kani::assume(s_amount != 0); }
@@ -256,6 +266,7 @@ fn verify_amt_1in_2out() {
         && sp.proof_id == SP_ID as usize && sp.ndom == 1 && sp.dom[0] == s_gen && sp.codomain == o0.gen);
     let ta_ok = ta_n == 1 && ta.verdict && ta.npos == 1 && ta.pos[0] == s_commit
         && ta.nneg == 2 && ta.neg[0] == o0.commit && ta.neg[1] == fee_commit;
+    if !models_active() { core::mem::forget(r); core::mem::forget(tx); core::mem::forget(spent); return; }
     match r {
         Ok(()) => {
             assert!(rp_ok, "Ok although the range proof of a confidential value was not verified for this output");
@@ -266,8 +277,6 @@ fn verify_amt_1in_2out() {
             assert!(need_sp || sp_n == 0);
             kani::cover!(need_rp && need_sp);
             kani::cover!(!need_rp && !need_sp);
-            kani::cover!(s_vkind == 2 && s_akind == 2);
-            kani::cover!(s_vkind == 1 && s_akind == 1);
         }
         Err(e) => {
             assert!(!(rp_ok && sp_ok && ta_ok), "all required checks passed, yet verification failed");
@@ -291,6 +300,14 @@ fn verify_amt_1in_2out() {
     core::mem::forget(spent);
 }
 }
+    };
+}
+//@ harness: verify_amt_spent_explicit class=B tier=thorough bound="1 input without issuance spending an explicit output; output 0 explicit-or-confidential asset and value with optional proofs and a 2-byte script, output 1 an explicit fee; primitives assumed (A-secp)" props=C05 timeout=1500
+//@ clause: verify_tx_amt_proofs returns Ok iff: a confidential value has a range proof verified (verdict Ok) with that output's commitment, script bytes and asset generator; a confidential asset has a surjection proof verified (true) for that output's generator over [spent generator]; the balance primitive was called once with [spent commitment] vs [output commitments in order] and returned true. Each Err variant names a true reason.
+verify_amt_harness!(verify_amt_spent_explicit, 1, 1);
+//@ harness: verify_amt_spent_confidential class=B tier=thorough bound="as verify_amt_spent_explicit, the spent output has a confidential asset and value" props=C05 timeout=1500
+//@ clause: same, with the spent output's generator and commitment taken as they are
+verify_amt_harness!(verify_amt_spent_confidential, 2, 2);
 
 macro_rules! len_mismatch_harness {
     ($name:ident, $nin:expr, $nspent:expr) => {
@@ -310,7 +327,7 @@ macro_rules! len_mismatch_harness {
                 Err(e) => { assert!(e == VerificationError::UtxoInputLenMismatch, "... and rejected as such"); core::mem::forget(e); }
             }
             // rejected before any primitive is consulted
-            unsafe { assert!(fm::RP_N == 0 && fm::SP_N == 0 && fm::TALLY_N == 0 && fm::COMMIT_CALLS == 0); }
+            if models_active() { unsafe { assert!(fm::RP_N == 0 && fm::SP_N == 0 && fm::TALLY_N == 0 && fm::COMMIT_CALLS == 0); } }
             kani::cover!(true);
             core::mem::forget(tx);
             core::mem::forget(spent);
@@ -333,8 +350,9 @@ len_mismatch_harness!(amt_len_mismatch_0in_1spent, 0, 1);
 
 /// 1 explicit input, output 0 = explicit `v0` to a normal script, output 1 = explicit ZERO with the given script.
 fn zero_value_case(script1: Vec<u8>) -> (Result<(), VerificationError>, [u8; 64], [u8; 64]) {
-    fake_secp!(secp);
-    unsafe { fm::ALL_VALID = true; } // every primitive answers "valid": only the Rust-side rule is observed
+    let md = unsafe { Secp256k1::from_raw_all(core::ptr::NonNull::<zffi::Context>::dangling()) };
+    let secp: &Secp256k1<All> = unsafe { &*((&*md) as *const Secp256k1<AllPreallocated<'_>> as *const Secp256k1<All>) };
+    unsafe { fm::ALL_VALID = true; } // every primitive answers "valid": only the Rust-side rule is observed (on real code the transaction balances for real)
     let tag = sym_tag();
     let amt: u64 = kani::any();
     kani::assume(amt != 0);
@@ -353,7 +371,10 @@ fn zero_value_case(script1: Vec<u8>) -> (Result<(), VerificationError>, [u8; 64]
 amt_stubs! {
 //@ harness: zero_value_spendable_rejected class=B tier=quick bound="1 explicit input, 2 explicit outputs, the second with amount 0 on a 1-byte script whose opcode is symbolic and not OP_RETURN; primitives answer valid" props=C05 timeout=600
 //@ clause: a zero-value explicit output on a script that is not provably unspendable makes amount verification fail even when every primitive says valid
+#[kani::unwind(66)]
 fn zero_value_spendable_rejected() {
+    kani::cover!(models_active(), "libsecp models / recorders active");
+    if !models_active() { return; }
     let op: u8 = kani::any();
     kani::assume(op != 0x6a);
     let (r, _, _) = zero_value_case(vec![op]);
@@ -367,15 +388,22 @@ fn zero_value_spendable_rejected() {
 macro_rules! zero_value_admissible {
     ($name:ident, $script:expr) => {
         amt_stubs! {
+        // the number of output commitments depends on whether a zero-value output is skipped, so the loops over them
+        // have a symbolic bound: unwind 66 = the 64-byte comparisons of this harness + 2 (unwinding assertions stay on)
+        #[kani::unwind(66)]
         fn $name() {
+            kani::cover!(models_active(), "libsecp models / recorders active");
+            if !models_active() { return; }
             let (r, c_in, c_out0) = zero_value_case($script);
             match r {
                 Ok(()) => {
-                    // admissible, and it contributes nothing to the balance
-                    let ta = unsafe { fm::TALLY_LOG[0] };
-                    unsafe { assert!(fm::TALLY_N == 1); }
-                    assert!(ta.npos == 1 && ta.pos[0] == c_in);
-                    assert!(ta.nneg == 1 && ta.neg[0] == c_out0);
+                    // admissible, and it contributes nothing to the balance (recorder-based: only with the models in force)
+                    if models_active() {
+                        let ta = unsafe { fm::TALLY_LOG[0] };
+                        unsafe { assert!(fm::TALLY_N == 1); }
+                        assert!(ta.npos == 1 && ta.pos[0] == c_in);
+                        assert!(ta.nneg == 1 && ta.neg[0] == c_out0);
+                    }
                     kani::cover!(true);
                 }
                 Err(e) => {
@@ -387,7 +415,7 @@ macro_rules! zero_value_admissible {
         }
     };
 }
-//@ harness: zero_value_opreturn_admissible class=B tier=quick bound="1 explicit input, 2 explicit outputs, the second with amount 0 on the script OP_RETURN; primitives answer valid" props=C05 timeout=600
+//@ harness: zero_value_opreturn_admissible class=B tier=quick bound="1 explicit input, 2 explicit outputs, the second with amount 0 on the script OP_RETURN; primitives answer valid; unwind 66" props=C05 timeout=600
 //@ clause: zero-value outputs are admissible on provably unspendable scripts (OP_RETURN burn): the balanced transaction verifies and the zero output is not part of the balance call. EXPECTED TO FAIL on the pinned tree: DESIGN section 6, D9
 zero_value_admissible!(zero_value_opreturn_admissible, vec![0x6au8]);
 //@ harness: zero_value_emptyscript_admissible class=B tier=quick bound="as above with the empty script (zero fee output)" props=C05 timeout=600
